@@ -329,6 +329,8 @@ class World(GwWorld):
             self.viol.append(f"{name} raised {detail}, the connection error was {self.lost_exc!r}")
 
     def _final_checks(self):
+        for e in self.loop.escaped_callback_exceptions():
+            self.viol.append(f"an exception escaped from a protocol / loop callback: {e}")
         for op in self.ops:
             if op.outcome is None:
                 self.viol.append(f"{op.kind} never finished")
